@@ -266,7 +266,13 @@ func concatStr(a, b value) value {
 	if aok && bok {
 		return as + bs
 	}
-	return binopSym(token.ADD, nil, deEnum(a), deEnum(b))
+	a, b = deEnum(a), deEnum(b)
+	as, aok = a.(string)
+	bs, bok = b.(string)
+	if aok && bok {
+		return as + bs
+	}
+	return binopSym(token.ADD, nil, a, b)
 }
 
 // sprintf supports the verbs falco uses; flags and widths are honoured for
